@@ -335,7 +335,42 @@ fn check(mode: &str, text: &str, width: usize) -> Result<(u32, bool), (String, S
     Ok((breaks, had_wide_single))
 }
 
+/// The lines the renderer appends to an argument's help in long help (`[default: ..]`,
+/// `[aliases: ..]`, `[possible values: ..]`) are wrapped like the help itself: whatever the help
+/// text is (one line, two lines, none), no line holding several words is wider than the width.
+fn check_spec_lines(kind: usize, help: usize, n: usize, width: usize) -> Result<(), (String, String)> {
+    let words: Vec<String> = (0..n).map(|i| format!("w{}x", i)).collect();
+    let mut a = clap::Arg::new("opt").long("opt").action(clap::ArgAction::Append).num_args(1..);
+    a = match help {
+        0 => a,
+        1 => a.help("short help"),
+        _ => a.help("first line\nsecond line of the help"),
+    };
+    a = match kind {
+        0 => a.default_values(words.clone()),
+        1 => a.visible_aliases(words.clone()),
+        _ => a.value_parser(words.clone()),
+    };
+    let mut c = Command::new("prog").term_width(width).arg(a);
+    let out = c.render_long_help().to_string();
+    for line in out.lines() {
+        let t = line.trim_end_matches(' ');
+        if width_of(t) > width && t.trim_start_matches(' ').contains(' ') {
+            return Err(("long help: a line holding several words is wider than the width".into(), format!("kind {} help {} n {} width {}: line {:?} has width {} — output {:?}", ["default_values", "visible_aliases", "possible values"][kind], help, n, width, t, width_of(t), out)));
+        }
+    }
+    Ok(())
+}
+
 fn recheck(case: &Value) -> Vec<Violation> {
+    if case["part"] == "spec-lines" {
+        let g = |k: &str| case[k].as_u64().unwrap_or(0) as usize;
+        return match catch(|| check_spec_lines(g("kind"), g("help"), g("n"), g("width"))) {
+            Ok(Ok(())) => vec![],
+            Ok(Err((c, w))) => vec![Violation { cause: c, order: (0, 0), what: w, case: case.clone() }],
+            Err(p) => vec![Violation { cause: p.key(), order: (0, 0), what: p.show(), case: case.clone() }],
+        };
+    }
     let mode = case["mode"].as_str().unwrap_or("plain").to_string();
     let text = String::from_utf8(unhex(case["text_hex"].as_str().unwrap_or(""))).unwrap_or_default();
     let width = case["width"].as_u64().unwrap_or(0) as usize;
@@ -436,6 +471,29 @@ fn main() {
         }
         rep.merge(&h);
     });
+    // lines appended to an argument's help in long help
+    if cfg!(feature = "full") {
+        let mut h = Hist::new();
+        for kind in 0..3usize {
+            for help in 0..3usize {
+                for n in 1..=10usize {
+                    for width in 30..=60usize {
+                        h.evaluations += 1;
+                        h.states += 1;
+                        h.transitions += 1;
+                        h.validated += 1;
+                        let mk = || json!({"part": "spec-lines", "kind": kind, "help": help, "n": n, "width": width});
+                        match catch(|| check_spec_lines(kind, help, n, width)) {
+                            Ok(Ok(())) => {}
+                            Ok(Err((c, w))) => rep.violation(Violation { cause: c, order: (1 << 40, (n * 100 + width) as u64), what: w, case: mk() }),
+                            Err(p) => rep.violation(Violation { cause: p.key(), order: (1 << 40, 0), what: p.show(), case: mk() }),
+                        }
+                    }
+                }
+            }
+        }
+        rep.merge(&h);
+    }
     rep.sample(json!({"mode": "plain", "text": "a a a", "width": 3, "output": "a a\na"}));
     rep.sample(json!({"mode": "styled", "text": "a \u{1b}[1ma\u{1b}[0m a", "width": 3, "output": render("styled", "a \x1b[1ma\x1b[0m a", 3)}));
     rep.finish(&recheck);
